@@ -19,8 +19,8 @@ from engines import e1_monitors as mon
 PROP = 'C11'
 RUN_WALL = 30
 HARD_WALL = 600
-KINDS = ['identical', 'vectorized', 'pool_l', 'pool_l', 'verbose', 'ckpt',
-         'observe', 'observe', 'pool_s_order']
+KINDS = ['identical', 'vectorized', 'vectorized', 'pool_l', 'pool_l',
+         'verbose', 'ckpt', 'observe', 'observe', 'pool_s_order']
 PROFILE = dict(p_pool_l=0.3, p_pool_s=0.15,
                fault_kinds=['slice', 'slice', 'stop_resume', 'timeout'])
 
@@ -62,6 +62,11 @@ def make_pair(rng, cfg, timeline):
     if kind == 'identical':
         pass
     elif kind == 'vectorized':
+        if cfg['lik']['prior'] in ('fn', 'fn_inplace') and \
+                rng.random() < 0.6:
+            # a prior function that modifies its argument in place is legal
+            # (C03) and must be just as invisible in both modes
+            base_cfg['lik']['prior'] = var_cfg['lik']['prior'] = 'fn_inplace'
         var_cfg['lik']['vectorized'] = not cfg['lik']['vectorized']
         if var_cfg['lik']['vectorized']:
             var_cfg['pool_l'] = None
